@@ -125,6 +125,10 @@ func verifAssert(cond bool, label string) {
 // verifReach marks a point that must be reachable on some path (vacuity guard).
 func verifReach(label string) { verifNS.reached[label] = true }
 
+// verifNoReach declares that a label of a shared harness body is not
+// reachable in this variant (it is then not demanded by the vacuity guard).
+func verifNoReach(label string) {}
+
 // verifObserve logs values for translator validation.
 func verifObserve(label string, v ...interface{}) {
 	s := label
